@@ -1,3 +1,5 @@
+use typst_syntax::is_newline;
+
 pub trait BoolExt {
     fn replace(&mut self, value: Self) -> Self;
 }
@@ -18,10 +20,11 @@ pub trait StrExt {
 
 impl StrExt for str {
     fn has_linebreak(&self) -> bool {
-        self.contains('\n')
+        self.contains(is_newline)
     }
 
     fn count_linebreaks(&self) -> usize {
-        self.chars().filter(|c| *c == '\n').count()
+        // Line breaks as the typst lexer sees them: a CR LF pair is a single one.
+        self.chars().filter(|&c| is_newline(c)).count() - self.matches("\r\n").count()
     }
 }
